@@ -916,12 +916,13 @@ func (vc *VC) closureGhost(st *State, mc *ssa.MakeClosure, ref Term) {
 // (behavioural subtyping), checked over two arbitrary heaps.
 func (vc *VC) closureCreationChecks(st *State, mc *ssa.MakeClosure, fn *ssa.Function, cc *Contract, ref Term, binds []Term, ups []GhostUpdate) {
 	site := vc.siteOf(mc)
+	var cbArgs []TV
+	for _, p := range fn.Params {
+		cbArgs = append(cbArgs, TV{T: vc.d.freshConst("cbarg_"+p.Name(), sortOf(p.Type())), S: goSType(p.Type())})
+	}
 	mkCI := func() *calleeInfo {
 		ci := &calleeInfo{key: funcKey(fn), contract: cc, sig: fn.Signature, fn: fn, closure: mc, closureBind: binds}
-		for _, p := range fn.Params {
-			s := sortOf(p.Type())
-			ci.args = append(ci.args, TV{T: vc.d.freshConst("cbarg_"+p.Name(), s), S: goSType(p.Type())})
-		}
+		ci.args = append(ci.args, cbArgs...)
 		return ci
 	}
 	for _, r := range cc.Requires {
@@ -958,8 +959,14 @@ func (vc *VC) closureCreationChecks(st *State, mc *ssa.MakeClosure, fn *ssa.Func
 	}
 	sub := st.clone()
 	sub.assume = append([]Term{}, st.assume...)
-	asType := (&Env{vc: vc, pkg: cc.Pkg, vars: map[string]TV{}, heap: st.heap, old: st.heap}).resolveType(cc.CallbackAs)
-	self := TV{T: vc.toAny(ref, asType.Go), S: goSType(mustIfaceOf(vc, cc.Callback))}
+	isFuncType := strings.HasPrefix(cc.Callback, "functype ")
+	var self TV
+	if isFuncType {
+		self = TV{T: ref, S: goSType(mc.Type())}
+	} else {
+		asType := (&Env{vc: vc, pkg: cc.Pkg, vars: map[string]TV{}, heap: st.heap, old: st.heap}).resolveType(cc.CallbackAs)
+		self = TV{T: vc.toAny(ref, asType.Go), S: goSType(mustIfaceOf(vc, cc.Callback))}
+	}
 	// facts that hold in both arbitrary heaps: ghost attributes given at creation, captured variables unchanged
 	for _, h := range []*Heap{h1, h2} {
 		for _, u := range ups {
@@ -990,6 +997,15 @@ func (vc *VC) closureCreationChecks(st *State, mc *ssa.MakeClosure, fn *ssa.Func
 	sub.assume = append(sub.assume, app(">=", vc.hget(h2, "top", "Int"), vc.hget(h1, "top", "Int")), app(">=", vc.hget(h1, "top", "Int"), vc.top(st)))
 	ienv := func(heap, old *Heap) *Env {
 		e := &Env{vc: vc, pkg: ic.Pkg, vars: map[string]TV{ic.RecvName: self}, heap: heap, old: old}
+		if isFuncType {
+			// the function type's contract names the parameters of the function type's signature
+			e.vars["fn"] = self
+			sig := fn.Signature
+			for i := 0; i < sig.Params().Len() && i < len(cbArgs); i++ {
+				e.vars[sig.Params().At(i).Name()] = cbArgs[i]
+				e.vars[fmt.Sprintf("arg%d", i)] = cbArgs[i]
+			}
+		}
 		return e
 	}
 	cenv := func(heap, old *Heap) *Env { return vc.calleeEnv(mkCI(), heap, old) }
